@@ -1655,6 +1655,12 @@ def _thread_jumps(blocks, max_new=240, rounds=48):
                 if multi:
                     added += clone_for(P, chain, dest)
                     changed = True
+                else:
+                    # S is reached along this one path only: the switch folds to its taken edge
+                    nb = dict(S)
+                    nb["term"] = {"k": "goto", "target": dest, "at": t.get("at")}
+                    blocks[S["id"]] = nb
+                    changed = True
             if changed:
                 break
         if not changed:
